@@ -4,9 +4,11 @@
 // produced with the real ChunkSerializer (verified conformant, C07) from message bodies encoded HERE (own AMF0
 // encoder, deterministic property order) or as raw reference chunks (ref_chunk, copied from chunk_witness.rs).
 // It never decides a verdict; it only tries to turn a failed / undecided proof obligation into a concrete failing input.
-// usage: session_witness <c09|c10|c15|c17|c18> [seed]     exit 1 + last line "WITNESS ..." if a failing input is found,
+// usage: session_witness <c09|c10|c15|c17|c18|c19|c03> [seed]     exit 1 + last line "WITNESS ..." if a failing input is found,
 //        else exit 0 + "NONE".  Nothing here depends on wall-clock values: timestamps of session-generated messages
-//        are never compared.  SW_DEBUG=1 prints the reference traces and coverage counters to stderr.
+//        are never compared.  Every call into the crate under test runs under a watchdog (a call that does not return within
+//        2.5 s is a WITNESS "HANG ...") and under a counting global allocator (live heap above the budget is a WITNESS).
+//        SW_DEBUG=1 prints the reference traces and coverage counters to stderr.
 //        SW_STRICT=1 additionally applies the LITERAL reading of the statements where the unchanged tree is known to deviate
 //        (reported as WITNESS [strict] ...; without it these situations are not generated, so the unchanged tree gives NONE):
 //          c10: onMetaData on the active stream while PUBLISHING raises StreamMetadataReceived (SW_STRICT=1); `_result` with a
@@ -24,6 +26,8 @@ use rml_rtmp::sessions::{
 use rml_rtmp::time::RtmpTimestamp;
 use std::collections::{HashMap, HashSet};
 use std::panic::{catch_unwind, AssertUnwindSafe};
+use std::alloc::{GlobalAlloc, Layout, System};
+use std::sync::atomic::{AtomicBool, AtomicU64, AtomicUsize, Ordering};
 use std::sync::Mutex;
 
 // ---------------------------------------------------------------- small utilities
@@ -44,8 +48,58 @@ fn strict_level() -> u32 { std::env::var("SW_STRICT").ok().and_then(|v| v.parse(
 fn strict() -> bool { strict_level() >= 1 }
 fn debug() -> bool { std::env::var("SW_DEBUG").map(|v| v == "1").unwrap_or(false) }
 fn payload(n: usize, salt: u8) -> Vec<u8> { (0..n).map(|i| (i as u8).wrapping_mul(7).wrapping_add(salt)).collect() }
+// ---- safety nets: catch_unwind cannot stop a call that never returns or allocates without bound
+static MODE: Mutex<String> = Mutex::new(String::new());
+static LIVE: AtomicUsize = AtomicUsize::new(0);
+static LIMIT: AtomicUsize = AtomicUsize::new(usize::MAX);
+static TRIPPED: AtomicBool = AtomicBool::new(false);
+static CALL_START: AtomicU64 = AtomicU64::new(0);     // ms since program start (+1) at which the call in progress began; 0 = no call in progress
+struct Counting;
+fn over_budget(n: usize) {
+    if TRIPPED.swap(true, Ordering::SeqCst) { return; }
+    let lim = LIMIT.swap(usize::MAX, Ordering::SeqCst);
+    let c = CTX.try_lock().map(|g| g.clone()).unwrap_or_default();
+    let m = MODE.try_lock().map(|g| g.clone()).unwrap_or_default();
+    witness(format!("[{}] UNBOUNDED ALLOCATION: the live heap reached {} bytes (budget {} bytes) inside one call into the crate under test; last step: {}", m, n, lim, c));
+}
+unsafe impl GlobalAlloc for Counting {
+    unsafe fn alloc(&self, l: Layout) -> *mut u8 { let n = LIVE.fetch_add(l.size(), Ordering::Relaxed) + l.size(); if n > LIMIT.load(Ordering::Relaxed) { over_budget(n); } System.alloc(l) }
+    unsafe fn dealloc(&self, p: *mut u8, l: Layout) { LIVE.fetch_sub(l.size(), Ordering::Relaxed); System.dealloc(p, l) }
+    unsafe fn realloc(&self, p: *mut u8, l: Layout, new: usize) -> *mut u8 {
+        if new > l.size() { let n = LIVE.fetch_add(new - l.size(), Ordering::Relaxed) + (new - l.size()); if n > LIMIT.load(Ordering::Relaxed) { over_budget(n); } } else { LIVE.fetch_sub(l.size() - new, Ordering::Relaxed); }
+        System.realloc(p, l, new)
+    }
+}
+#[global_allocator]
+static GLOBAL: Counting = Counting;
+// run f with at most `extra` bytes of additional live heap
+fn with_budget<T>(extra: usize, f: impl FnOnce() -> T) -> T {
+    let old = LIMIT.swap(LIVE.load(Ordering::SeqCst).saturating_add(extra), Ordering::SeqCst);
+    let r = f();
+    if !TRIPPED.load(Ordering::SeqCst) { LIMIT.store(old, Ordering::SeqCst); }
+    r
+}
+fn now_ms() -> u64 { static T0: std::sync::OnceLock<std::time::Instant> = std::sync::OnceLock::new(); T0.get_or_init(std::time::Instant::now).elapsed().as_millis() as u64 + 1 }
+const CALL_TIMEOUT_MS: u64 = 2500;
+fn start_watchdog() {
+    let _ = now_ms();
+    std::thread::spawn(|| loop {
+        std::thread::sleep(std::time::Duration::from_millis(50));
+        let s = CALL_START.load(Ordering::SeqCst);
+        if s != 0 && now_ms().saturating_sub(s) > CALL_TIMEOUT_MS {
+            LIMIT.store(usize::MAX, Ordering::SeqCst); TRIPPED.store(true, Ordering::SeqCst);
+            let c = CTX.try_lock().map(|g| g.clone()).unwrap_or_default();
+            let m = MODE.try_lock().map(|g| g.clone()).unwrap_or_default();
+            witness(format!("[{}] HANG: a call into the crate under test has not returned after {} ms; last step: {}", m, CALL_TIMEOUT_MS, c));
+        }
+    });
+}
+// every call into the crate under test goes through here: panics are caught, the watchdog sees the call
 fn guard<T>(what: &str, f: impl FnOnce() -> T) -> Result<T, String> {
-    catch_unwind(AssertUnwindSafe(f)).map_err(|e| {
+    CALL_START.store(now_ms(), Ordering::SeqCst);
+    let r = catch_unwind(AssertUnwindSafe(f));
+    CALL_START.store(0, Ordering::SeqCst);
+    r.map_err(|e| {
         let m = e.downcast_ref::<&str>().map(|s| s.to_string()).or_else(|| e.downcast_ref::<String>().cloned()).unwrap_or_default();
         format!("PANIC in {} ({})", what, trunc(&m, 200))
     })
@@ -1482,16 +1536,24 @@ fn main() {
     let seed: u64 = a.get(2).and_then(|s| s.parse().ok()).unwrap_or(0);
     std::panic::set_hook(Box::new(|_| {}));
     limit_memory();
+    if let Ok(mut g) = MODE.lock() { *g = mode.clone(); }
+    LIMIT.store(1 << 30, Ordering::SeqCst);     // no mode needs anywhere near 1 GiB of live heap on the unchanged tree
+    start_watchdog();
     { let mode = mode.clone(); std::thread::spawn(move || { std::thread::sleep(std::time::Duration::from_secs(150)); witness(format!("[{}] no result after 150 s: a call into the crate under test does not return (or is far slower than on the unchanged tree, where the whole mode takes about a second); last step: {}", mode, get_ctx())); }); }
-    let r = guard("the finder", || match mode.as_str() {
+    let r = catch_unwind(|| match mode.as_str() {
         "c09" => mode_c09(seed),
         "c10" => mode_c10(seed),
         "c15" => mode_c15(seed),
         "c17" => mode_c17(seed),
         "c18" => mode_c18(seed),
-        _ => { eprintln!("usage: session_witness <c09|c10|c15|c17|c18> [seed]"); std::process::exit(2) }
+        "c19" => mode_c19(seed),
+        "c03" => mode_c03(seed),
+        _ => { eprintln!("usage: session_witness <c09|c10|c15|c17|c18|c19|c03> [seed]"); std::process::exit(2) }
     });
-    if let Err(e) = r { witness(format!("[{}] {} while running: {}", mode, e, get_ctx())); }
+    if let Err(e) = r {
+        let m = e.downcast_ref::<&str>().map(|s| s.to_string()).or_else(|| e.downcast_ref::<String>().cloned()).unwrap_or_default();
+        witness(format!("[{}] PANIC ({}) while running: {}", mode, trunc(&m, 200), get_ctx()));
+    }
     if debug() { if let Ok(g) = STATS.lock() { for (k, n) in g.iter() { eprintln!("coverage: {} x {}", n, k); } } }
     println!("NONE");
 }
